@@ -29,6 +29,7 @@ TIERS = {
     "thorough": {"runs": 40000, "budget": 2400, "selftest": 300, "shrink_budget": 150, "chunk": 8, "task_timeout": 1800},
 }
 RUN_TIMEOUT_S = 300
+HISTORY_REPLAY = False  # every tool run is a forked child: nothing can leak from one scenario into the next
 RULE = (
     "Each run builds a corpus of 1-8 utterances (npy / pt / wav / keyed npz / keyed hdf5 for the torch tool, wav "
     "scp for the Kaldi tool; mono or channels-first multi-channel; lengths from 0 samples to ~900) and a command line "
